@@ -11,8 +11,10 @@ treated leniently (only 'nothing outside the ascmhl folder is damaged')."""
 import json
 import os
 import random
+import re
 import shutil
 import signal
+import subprocess
 import sys
 import time
 import traceback
@@ -218,9 +220,10 @@ def _child(plan, argv, cwd, tz, root, trace_path):
             return ltrace
         return None
 
-    builtins.open = io.open = wopen
-    os.write = wwrite
-    sys.addaudithook(hook)
+    if kind != "none":  # "none": the untouched command, crash points are set from outside (strace)
+        builtins.open = io.open = wopen
+        os.write = wwrite
+        sys.addaudithook(hook)
     if kind in ("count", "line"):
         sys.settrace(gtrace)
     code = 0
@@ -268,6 +271,109 @@ def spawn(plan, argv, cwd, tz, root, trace_path):
             err = open(trace_path + ".err").read()
         raise RuntimeError("crash harness failed in the child process:\n" + err)
     return "completed", code
+
+
+# ------------------------------------------------------------------------------------------------ kill at system calls
+# second, hook-independent family of crash points: the untouched command runs in a forked child, strace attaches to it and
+# delivers SIGKILL on entry to the k-th invocation of one system call (the call is not executed).  This also reaches writes
+# made below the Python level (e.g. lxml / libxml2 writing to a file name).
+SYSCALLS = (
+    "openat open creat write pwrite64 writev pwritev rename renameat renameat2 mkdir mkdirat unlink unlinkat rmdir truncate "
+    "ftruncate link linkat symlink symlinkat copy_file_range sendfile"
+).split()
+FD_CALLS = {"write", "pwrite64", "writev", "pwritev", "ftruncate", "copy_file_range", "sendfile"}
+STRACE = shutil.which("strace")
+
+
+def spawn_sys(sysname, k, argv, cwd, tz, root, log):
+    """returns ('killed'|'completed'|'unavailable', exit code)"""
+    sys.stdout.flush()
+    sys.stderr.flush()
+    r, w = os.pipe()
+    pid = os.fork()
+    if pid == 0:
+        try:
+            os.close(w)
+            os.read(r, 1)
+            os.close(r)
+            _child({"kind": "none"}, argv, cwd, tz, root, log + ".trace")
+        finally:
+            os._exit(HARNESS)
+    os.close(r)
+    cmd = [STRACE, "-p", str(pid), "-y", "-s", "0", "-o", log]
+    if sysname is None:
+        cmd += ["-e", "trace=" + ",".join("?" + c for c in SYSCALLS)]
+    else:
+        cmd += ["-e", f"trace={sysname}", "-e", f"inject={sysname}:signal=KILL:when={k}"]
+    p = subprocess.Popen(cmd, stdin=subprocess.DEVNULL, stdout=subprocess.DEVNULL, stderr=subprocess.PIPE)
+    t0 = time.time()
+    attached = False
+    while time.time() - t0 < 20:
+        try:
+            with open(f"/proc/{pid}/status") as fh:
+                st = fh.read()
+        except OSError:
+            break
+        if "TracerPid:\t0\n" not in st:
+            attached = True
+            break
+        if p.poll() is not None:
+            break
+        time.sleep(0.001)
+    if not attached:
+        os.kill(pid, signal.SIGKILL)
+        os.waitpid(pid, 0)
+        p.kill()
+        p.wait()
+        os.close(w)
+        return "unavailable", None
+    os.write(w, b"x")
+    os.close(w)
+    _, status = os.waitpid(pid, 0)
+    try:
+        p.wait(timeout=20)
+    except subprocess.TimeoutExpired:
+        p.kill()
+        p.wait()
+    if os.WIFSIGNALED(status):
+        if os.WTERMSIG(status) == signal.SIGKILL:
+            return "killed", None
+        raise RuntimeError(f"child ended by signal {os.WTERMSIG(status)}")
+    code = os.WEXITSTATUS(status)
+    if code == HARNESS:
+        raise RuntimeError("crash harness failed in the strace'd child process")
+    return "completed", code
+
+
+def sys_points(log, root, cwd):
+    """[(syscall, n-th invocation of it, text)] for the calls of the trace that change something below root"""
+    rp = root + os.sep
+
+    def under(p):
+        p = os.path.normpath(p)
+        return p == root or p.startswith(rp)
+
+    out, counts = [], {}
+    with open(log, errors="replace") as fh:
+        for line in fh:
+            m = re.match(r"(?:\d+\s+)?(\w+)\((.*)$", line)
+            if not m:
+                continue
+            name, rest = m.group(1), m.group(2)
+            counts[name] = counts.get(name, 0) + 1
+            if name in FD_CALLS:
+                hit = any(under(x) for x in re.findall(r"\d+<([^>]*)>", rest.split(") = ")[0]))
+            else:
+                args = rest.rsplit(") = ", 1)[0]
+                dirs = [a or b for a, b in re.findall(r"AT_FDCWD<([^>]*)>|\b\d+<([^>]*)>", args)]
+                base = dirs[0] if dirs else cwd
+                paths = re.findall(r'"((?:[^"\\]|\\.)*)"', args)
+                hit = any(under(x if x.startswith("/") else os.path.join(base, x)) for x in paths)
+                if name in ("openat", "open"):
+                    hit = hit and re.search(r"O_(WRONLY|RDWR|CREAT|TRUNC|APPEND)", args) is not None
+            if hit:
+                out.append((name, counts[name], line.strip()[:200].replace(root, "<root>")))
+    return out
 
 
 # ------------------------------------------------------------------------------------------------ worlds
@@ -696,6 +802,18 @@ def do_task(run, wi, spec, variant):
             pts = sorted(set(must) | set(rnd.sample(rest, cap - len(must))))
         for p in pts:
             plans.append((f"line{p:05d}", {"kind": "line", "k": p, "sig": "kill" if p % 2 else "exit"}, ["line", None]))
+    if STRACE and not os.environ.get("C15_NO_STRACE"):
+        d = fresh(b)
+        argv, cwd, tz = argv_for(d, b, variant, fmts)
+        log = os.path.join(copies, "strace.log")
+        how, _ = spawn_sys(None, 0, argv, cwd, tz, os.path.join(d, "t"), log)
+        pts = sys_points(log, os.path.join(d, "t"), cwd) if how == "completed" else []
+        shutil.rmtree(d, ignore_errors=True)
+        cid = pre + "sys-trace"
+        if run.want(cid):
+            run.case(cid, None, sample={"case": cid, "strace": how, "points": len(pts)})
+        for sname, idx, text in pts:
+            plans.append((f"sys-{sname}{idx:03d}", {"kind": "sys", "call": sname, "k": idx}, ["syscall", text]))
     if os.environ.get("C15_DEBUG"):
         print(pre, len(events), "effects", tr["lines"], "lines", len(plans), "plans", file=sys.stderr)
     seen = set()
@@ -706,7 +824,13 @@ def do_task(run, wi, spec, variant):
         d = fresh(b)
         root = os.path.join(d, "t")
         argv, cwd, tz = argv_for(d, b, variant, fmts)
-        how, code = spawn(plan, argv, cwd, tz, root, os.path.join(copies, "t"))
+        if plan["kind"] == "sys":
+            how, code = spawn_sys(plan["call"], plan["k"], argv, cwd, tz, root, os.path.join(copies, "strace.log"))
+            if how == "unavailable":
+                shutil.rmtree(d, ignore_errors=True)
+                continue
+        else:
+            how, code = spawn(plan, argv, cwd, tz, root, os.path.join(copies, "t"))
         inp = dict(inp0, crash=plan, effect=ev[:3], child=how)
         run.case(cid, [wid, vn, name] if (how == "killed" and strict) else None, sample={"case": cid, "effect": ev[:2], "child": how})
         stage = f"after the kill at {name} ({ev[0]} {ev[1]})" if how == "killed" else "after the completed create"
